@@ -161,3 +161,26 @@ impl BuildHasher for RevBuild {
         RevHasher(0)
     }
 }
+
+// ---- serde: an Item travels as one u16 (key << 8 | payload), a priority as one u8
+impl serde::Serialize for Item {
+    fn serialize<S: serde::Serializer>(&self, s: S) -> Result<S::Ok, S::Error> {
+        s.serialize_u16(((self.key as u16) << 8) | self.pay as u16)
+    }
+}
+impl<'de> serde::Deserialize<'de> for Item {
+    fn deserialize<D: serde::Deserializer<'de>>(d: D) -> Result<Self, D::Error> {
+        let x = u16::deserialize(d)?;
+        Ok(Item::new((x >> 8) as u8, x as u8))
+    }
+}
+impl serde::Serialize for Pr {
+    fn serialize<S: serde::Serializer>(&self, s: S) -> Result<S::Ok, S::Error> {
+        s.serialize_u8(self.0)
+    }
+}
+impl<'de> serde::Deserialize<'de> for Pr {
+    fn deserialize<D: serde::Deserializer<'de>>(d: D) -> Result<Self, D::Error> {
+        Ok(Pr(u8::deserialize(d)?))
+    }
+}
